@@ -25,6 +25,23 @@ def reset_server():
     reset_internal_bus()
 
 
+class EmptyPayload(dict):
+    """a payload that is an EMPTY container (falsy, like `Changes(Map())`, `{}` or `()`), carrying its identity"""
+
+    def __init__(self, T, v):
+        super().__init__()
+        self.T, self.v = T, v
+
+
+def wrap(T, v):
+    # every third message carries an empty (falsy) payload
+    return EmptyPayload(T, v) if v % 3 == 0 else (T, v)
+
+
+def unwrap(x):
+    return (x.T, x.v) if isinstance(x, EmptyPayload) else x
+
+
 async def run_real_async(ops, handlers, n_cons, short_lived=False):
     """short_lived: every produce goes through a fresh producer object that is dropped afterwards and a
     consumer object only exists from its first subscription on (as when participants come and go) - the
@@ -38,12 +55,13 @@ async def run_real_async(ops, handlers, n_cons, short_lived=False):
 
     async def produce(T, v):
         if short_lived:
-            await InternalStateProducer().produce(T, (T, v))   # dropped at once (reference counting)
+            await InternalStateProducer().produce(T, wrap(T, v))   # dropped at once (reference counting)
         else:
-            await prod.produce(T, (T, v))
+            await prod.produce(T, wrap(T, v))
 
     def mk(k):
         async def cb(value):
+            value = unwrap(value)
             recv[k].append(value)
             for T, v2 in script.get((k, value[1]), []):
                 produced.setdefault(T, []).append(v2)
